@@ -6,10 +6,10 @@ R1  TLC exhaustive: RestoreV3.tla = every small layout (generations x snapshots 
     the transcription of findBestSnapshotV3 / filterWALSegmentsV3 / applyWALSegmentsV3 / shouldUseV3Restore
     (RestoreV3Plan.tla) is checked against the declarative statement.  The number of initial states is
     cross-checked with this runner's own enumeration of the same space.
-R2  the same enumerated inputs (all of the 1-generation space; seeded samples of the 2-generation and the
-    format-arbitration spaces) + seeded random histories with arbitrary (also non frame aligned) split
-    offsets are materialised PHYSICALLY by harness/cmd/v3restore on real SQLite histories and restored
-    with the real Replica.Restore / RestoreV3.
+R2  the same enumerated inputs (quick: seeded samples of the 1-generation, 2-generation and format-arbitration
+    spaces + the smallest U1 layout; thorough: those spaces completely or in large samples) + seeded random
+    histories with arbitrary (also non frame aligned) split offsets are materialised PHYSICALLY by
+    harness/cmd/v3restore on real SQLite histories and restored with the real Replica.Restore / RestoreV3.
 R3  RestoreV3Obs.tla judges each real outcome against the declarative statement (verdict) and against the
     transcription (binding, reported as DIVERGENCE).
 Finding U1 (input family IsU1 in RestoreV3Plan.tla) is a KNOWN-FINDING only if known_findings.json lists it.
@@ -319,8 +319,8 @@ def main():
                 ffix = ex.submit(run_model, rep, wd, "fix", "MC_RestoreV3_fix.cfg", "FixU1=TRUE (candidate repair), strict invariants")
                 for n, p in todo:
                     init, violated = futs[n].result()
-                    mine = space_size(cfgs[n]) if n != "g2" else None
-                    if mine is not None and mine != init:
+                    mine = space_size(cfgs[n])
+                    if mine != init:
                         raise vlib.MachineryError("input-space cross-check failed for %s: TLC %d initial states, runner %d" % (n, init, mine))
                     if violated:
                         rep.notes.append("design-level counterexample in RestoreV3.tla (%s): %s - reported only if reproduced on the real code" % (n, violated))
@@ -343,8 +343,8 @@ def main():
                 plan = [("g1", 3000), ("g2q", 1000), ("ltx", 800)]
                 nrand = 40
             else:
-                plan = [("g1", None), ("g1s", None), ("g2q", None), ("ltx", None), ("g2", 60000)]
-                nrand = 2500
+                plan = [("g1", None), ("g1s", 10000), ("g2q", None), ("ltx", 15000), ("g2", 30000)]
+                nrand = 1000
             for n, sample in plan:
                 if n == "g2":      # too large to list: sample layouts, then all removals x a sample of T
                     shapes = gen_shapes(3, 3, 2, (1,))
